@@ -124,6 +124,12 @@ class OpBox(object):
 
     def baseline(self):
         self.base = {}
+        # directories the scenario starts with (whatever their mode: not trash-put's doing)
+        self.pre_parts = set()
+        for t, p in self.tdirs.items():
+            for part, pp in (('dir', p), ('files', os.path.join(p, 'files')), ('info', os.path.join(p, 'info'))):
+                if os.path.isdir(pp):
+                    self.pre_parts.add((t, part))
         for t, p in self.tdirs.items():
             for part in ('info', 'files'):
                 d = os.fsencode(os.path.join(p, part))
@@ -209,6 +215,18 @@ class OpBox(object):
                 if os.path.isdir(os.path.join(p, part)):
                     parts.append(part)
             st['parts'][t] = parts
+            # a trash directory (and its files/ and info/) is private from the moment it exists (C07): never observable with
+            # another mode, not even between two operations of the run that creates it
+            for part in parts:
+                if (t, part) in getattr(self, 'pre_parts', ()):
+                    continue
+                pp = p if part == 'dir' else os.path.join(p, part)
+                try:
+                    md = os.lstat(pp).st_mode & 0o7777 & ~0o2000
+                except OSError:
+                    continue
+                if md != 0o700:
+                    st['notes'].append('mode: %s of %s has mode %o' % (part, t, md))
             st['info'][t] = {}
             st['pay'][t] = {}
             idir = os.fsencode(os.path.join(p, 'info'))
